@@ -426,6 +426,8 @@ var _ = big.NewInt
 
 type stepStats struct {
 	msgs, reached, nontrivial int
+	fullBlockRequested        bool // a getdata for a full block went to this peer (in-progress entry without collector)
+	namedInProgress           int  // blocktxn / block / cmpctblock messages naming a block that is in progress on this connection
 }
 
 // runSeq executes a case; the returned error is a violation of the property.
@@ -462,9 +464,29 @@ func runSeq(cs seqCase, st *stepStats) (err error) {
 			}); err != nil {
 				return err
 			}
+			if st != nil && c.Mutex.TryLock() {
+				st.fullBlockRequested = st.fullBlockRequested || len(c.GetBlockInProgress) > 0
+				c.Mutex.Unlock()
+			}
 			return locksFree(c)
 		}
 		pl := resolve(e, c, m)
+		if st != nil && c.Mutex.TryLock() {
+			if len(c.GetBlockInProgress) > 0 {
+				var key btc.BIDX
+				switch {
+				case m.Cmd == "blocktxn" && len(pl) >= 32:
+					copy(key[:], pl[:len(key)])
+				case (m.Cmd == "block" || m.Cmd == "cmpctblock") && len(pl) >= 80:
+					h := btc.Sha2Sum(pl[:80])
+					copy(key[:], h[:len(key)])
+				}
+				if _, ok := c.GetBlockInProgress[key]; ok {
+					st.namedInProgress++
+				}
+			}
+			c.Mutex.Unlock()
+		}
 		plBytes += uint64(len(pl))
 		if st != nil {
 			st.msgs++
@@ -671,6 +693,13 @@ func TestHandlerSequences(t *testing.T) {
 		if st.nontrivial > 0 {
 			r.NonTrivial()
 			r.Class("nontrivial")
+		}
+		if st.fullBlockRequested {
+			r.Class("state/full_block_requested_from_peer")
+		}
+		if st.namedInProgress > 0 {
+			r.Class("state/message_names_block_in_progress")
+			pbt.AddExtra("messages_naming_a_block_in_progress", int64(st.namedInProgress))
 		}
 		if err != nil {
 			if key := knownClass(cs.Msgs, err); key != "" {
